@@ -9,6 +9,7 @@ from pyvc.verify import verify, summarize
 from props import _jobharness as H
 
 ROLES = {
+    "cache-decision-and-execution-under-the-job-lock": "property:C35",
     "cwd-restored": "property:C35",
     "info-file-removed": "property:C35",
     "lock-released": "property:C35",
